@@ -48,7 +48,9 @@ func (rg *rootGenerator) generate() ([]*Node, error) {
 			return nil, errNilStack
 		}
 
-		stack.dfs(currentNode)
+		if !stack.dfs(currentNode) {
+			return nil, &inputFormatError{row: rg.scanner.Text()}
+		}
 	}
 
 	return roots, rg.scanner.Err()
